@@ -353,7 +353,7 @@ _ASSUME_ATTEMPT = ("callee contracts assumed (stubs): a repair attempt may perfo
 for d, tier, to in [(2, "quick", 900), (3, "thorough", 1200), (1, "thorough", 300)]:
     K(f"repair.protocol.d{d}", ["C03", "C08", "C19"] if d > 1 else ["C08", "C19"], FLIPS, "flips.rs", f"repair_protocol_d{d}", "K-callee",
       [fn(FLIPS, "repair_delaunay_with_flips_k2_k3"), fn(FLIPS, "repair_delaunay_with_flips_k2_k3_attempts")], tier=tier, timeout=to,
-      assumed=[_ASSUME_ATTEMPT], ignore_dealloc_model=True,
+      assumed=[_ASSUME_ATTEMPT],
       obligations=["low-dim"] if d < 2 else ["three-attempts", "attempt-order", "clean-start", "engine-by-dim", "ok-certified", "ok-certified-state", "err-unchanged"],
       claim="repair_delaunay_with_flips_k2_k3 for EVERY outcome sequence of its attempts and postcondition checks: Ok only if the last event is a passing "
             "postcondition check on the state returned; <= 3 attempts, each from the pre-repair state; Err => triangulation unchanged",
@@ -370,7 +370,7 @@ _ASSUME_RM = ("callee contracts assumed (stubs): vertex_key_from_uuid (any looku
               "repair_delaunay_with_flips_k2_k3 (contract PROVED by repair.protocol: Ok => any change, Err => unchanged)")
 K("dt.remove_vertex", ["C03", "C06", "C19"], DT, "dt.rs", "remove_vertex_contract", "K-callee",
   [fn(DT, "remove_vertex", anchor=r"pub fn remove_vertex\(\s*&mut self,\s*vertex: &Vertex<K::Scalar, U, D>,\s*\) -> Result<usize, TriangulationValidationError>")],
-  tier="quick", timeout=1500, assumed=[_ASSUME_RM], ignore_dealloc_model=True,
+  tier="quick", timeout=1500, assumed=[_ASSUME_RM],
   obligations=["unknown-noop", "ok-count", "repair-iff-policy", "fastpath-first", "err-unchanged", "fan-fallback"],
   claim="DelaunayTriangulation::remove_vertex for EVERY outcome of its callees: unknown vertex => Ok(0) untouched; Ok(n) reports the path's count; "
         "repair runs iff policy says so; Err => triangulation exactly as before (snapshot restored)",
@@ -404,7 +404,7 @@ K("dt.everyn", ["C08", "C02"], DT, "dt.rs", "everyn_contract", "K-full",
   bounded="n <= 255, count <= 65535 (bit-precise modulo)", obligations=["repair-everyn", "check-everyn", "check-endonly"],
   claim="DelaunayRepairPolicy::EveryN / DelaunayCheckPolicy::EveryN fire exactly on multiples of n; EndOnly never")
 K("dt.repair_entry", ["C08", "C03"], DT, "dt.rs", "repair_entry_contract", "K-callee",
-  [fn(DT, "repair_delaunay_with_flips", anchor=r"pub fn repair_delaunay_with_flips\(&mut self\)")], timeout=900, ignore_dealloc_model=True,
+  [fn(DT, "repair_delaunay_with_flips", anchor=r"pub fn repair_delaunay_with_flips\(&mut self\)")], timeout=900,
   assumed=["repair_delaunay_with_flips_k2_k3 (contract PROVED by repair.protocol)"],
   obligations=["single-run", "ok-from-engine", "err-unchanged"],
   claim="repair_delaunay_with_flips (public entry): engine wrapper runs at most once; Err => unchanged")
@@ -783,14 +783,14 @@ _SL_INSS_T = dict(file=DT, fn_anchor=_SL_INSS["fn_anchor"], stmts=[dict(prefix_u
 for nm, har in [("insert", "insert_snapshot_taken"), ("insert_with_statistics", "insert_stats_snapshot_taken")]:
     K(f"dt.snapshot_taken.{nm}", ["C03", "C02"], DT, "dt_slices2.rs", har, "K-slice",
       [dict(file=DT, name=f"DelaunayTriangulation::{nm} (K-slice: function prefix up to `let snapshot = ..;`)", anchor=(_SL_INS if nm == "insert" else _SL_INSS)["fn_anchor"])],
-      slices=[_SL_INS_T, _SL_INSS_T], timeout=1200, ignore_dealloc_model=True,
+      slices=[_SL_INS_T, _SL_INSS_T], timeout=1200,
       bounded="insertion count <= 1024, EveryN n <= 16; K-slice: the whole prefix of the function up to the snapshot statement (helpers it calls are real code), the rest dropped",
       assumed=["Tds::number_of_cells / number_of_vertices (stubs): any counts; ensure_spatial_index_seeded (stub: no-op)", "that the snapshot is restored on every Err of the closure is NOT decided"],
       obligations=["snapshot-exists-when-poststep"],
       claim=f"DelaunayTriangulation::{nm}: when the insertion starts, a rollback snapshot exists whenever a post-insertion step can run for it - however the decision is computed (robust to refactoring into helpers)")
 
 K("flip.local_postcondition", ["C04", "C08"], FLIPS, "flips_verify.rs", "local_postcondition_contract", "K-callee",
-  [fn(FLIPS, "verify_repair_postcondition_locally"), fn(FLIPS, "verify_repair_postcondition")], timeout=1500, ignore_dealloc_model=True,
+  [fn(FLIPS, "verify_repair_postcondition_locally"), fn(FLIPS, "verify_repair_postcondition")], timeout=1500,
   assumed=["seed_repair_queues and the four verify_postcondition_* functions (stubs): any verdict, queues untouched - their bodies (predicates on real cells) are NOT verified; Tds::is_connected (stub): any answer"],
   bounded="queues created empty by RepairQueues::new() (their drop loops unwound once, unwinding assertions on)",
   obligations=["conjunction", "all-consulted"],
